@@ -369,13 +369,11 @@ class NodeExpandedDiGraph(nx.DiGraph):
                 if edge not in self.original_G.edges:
                     utils.logger.error(f"{__name__}: Edge {edge} not in the original graph.")
                     raise ValueError(f"Edge {edge} not in the original graph.")
-                # For every edge (u,v) in the subpath constraint, we add the expanded node u (as (u.0, u.1)) and the edge (u.1, v.0)
-                expanded_constraint.append(self.get_expanded_edge(edge[0]))
-                expanded_constraint.append((edge[0] + '.1', edge[1] + '.0'))
-                
-                # For the last edge (u,v) in the constraint, we also add the expanded node v (as (v.0, v.1))
-                if i == len(constraint) - 1:
-                    expanded_constraint.append(self.get_expanded_edge(edge[1]))
+                # For every edge (u,v) in the constraint, we add the expanded node u (as (u.0, u.1)), the edge (u.1, v.0) and the
+                # expanded node v (as (v.0, v.1)), each element only once: the edges of a constraint need not form a contiguous path
+                for expanded_element in [self.get_expanded_edge(edge[0]), (edge[0] + '.1', edge[1] + '.0'), self.get_expanded_edge(edge[1])]:
+                    if expanded_element not in expanded_constraint:
+                        expanded_constraint.append(expanded_element)
 
             expanded_constraints.append(expanded_constraint)
 
